@@ -9,7 +9,7 @@ import coqemit as E
 
 ID = "C05"
 PROPS = "Props/C05.v"
-IMPORTS = "From Coq Require Import PrimFloat.\nFrom PV Require Import Lib.Common Lib.FloatK Model.C05_Latent Model.C05_Factory."
+IMPORTS = "From Coq Require Import PrimFloat.\nFrom PV Require Import Lib.Common Lib.FloatK Model.C05_Latent Model.C05_Factory Model.C05_Report."
 SHARD = 40
 LEVEL_TEXT = ("Coq theorems over an exact-rational model of the criterion families (linear, quadratic/kinship-factor, L1, family, "
               "allele-frequency distance/unavailability, optimal population value, genotype builder) and of evalfn: the subset formula of "
@@ -23,15 +23,21 @@ LEVEL_TEXT = ("Coq theorems over an exact-rational model of the criterion famili
               "is refuted on separately named old_ definitions as a regression witness; so is the former caching of the target flags in the tfreq setter (old_pau_stale / old_mogs_stale), "
               "while the current code is proved to answer a call after an in-place update of the target array from the current targets, after any history, and that answer is the count-based definition. The model is tied to the code by evaluating it inside "
               "Coq against latentfn/evalfn/evaluate/nlatent of all 61 evaluable concrete problem classes on generated data. "
-              "Kernel expressions regenerated from the source on every run (Gen/C05_Kernel.v, 173 definitions: guard and normalisation of all 39 "
+              "Kernel expressions regenerated from the source on every run (Gen/C05_Kernel.v, 178 definitions: guard and normalisation of all 39 "
               "vector-encoded latent functions, sign / 1/k coefficient of every linear, quadratic, L1 and family body, order of the latent blocks, the "
               "binary64 frequency quotient with its threshold and flag algebra for PAU/MOGS and what each target-flag property computes on access (the tfreq setter may store the array only), OPV / "
-              "genotype-builder coefficients and slice, evalfn, the transformations of trans.py, the usefulness-criterion formula, the accumulate-and-divide "
+              "genotype-builder coefficients and slice, evalfn, the reporting path SelectionProblem._evaluate (branch test, the table key -> element of the evalfn triple of the vector "
+              "branch and of the matrix branch, both filters; no class may override _evaluate / evalfn), the transformations of trans.py, the usefulness-criterion formula, the accumulate-and-divide "
               "loop of the EMBV problems and the replicate buffer / loop count / progeny count of the EMBV matrix factory) are proved equal to the model's "
               "expressions, and the availability, scale-invariance and guard-boundary theorems are restated about the generated definitions, so a changed "
               "expression breaks Props/C05.vo independently of the sampled cases. Further theorems: a re-used problem object answers each call from the "
               "data assigned last (any history), the linear criteria are homogeneous of degree one in their table, the expected maximum breeding value "
-              "of a line whose progeny all have breeding value b is b")
+              "of a line whose progeny all have breeding value b is b. Reporting path (Model/C05_Report.v, built from the generated tables): F, G, H are "
+              "elements 0, 1, 2 of the evalfn triple in BOTH branches of _evaluate, so for every latent function, weights and transformations what "
+              "_evaluate reports for a vector, and row by row for a matrix of candidates, is weights x transformations of the latent vector of that "
+              "candidate; a key is stored iff its declared count is positive, every stored matrix has one row per candidate, one row through the matrix "
+              "branch reports the numbers of the vector branch; 'H taken from the inequality column' is refuted as a regression witness; all 61 classes are "
+              "driven through evalfn / _evaluate(x) / _evaluate(x[None,:]) / _evaluate(X) / pymoo's evaluate with elementwise True and False and compared in Coq")
 LEVEL_NOTE = ("trusted: Coq kernel + vm_compute, PrimFloat primitives; BLAS/numpy summation order is not modelled (values compared within 2^-30 of "
               "the exact rational, exactly on power-of-two cases); sqrt (norms, usefulness criterion), the normal density (selection intensity), "
               "arcsin/sqrt weights and Cholesky factors are compared through their squares / within tolerance by the predicate only; factory "
@@ -49,7 +55,11 @@ RULE = ("case = (criterion family, candidate data on a dyadic grid, selected mul
         "with every variance-matrix factory of pybrops.model.vmat.fcty they accept — two-way, dihybrid, three-way, four-way — on parents with "
         "distinct breeding values, contributions written down in the harness; the EMBV matrix factory with nrep / nprogeny as scalars and as per-taxon arrays with "
         "unequal entries, sorted both ways, int32/int64; the EMBV problem factories with SelfCross, TwoWayCross and TwoWayDHCross on homozygous and segregating parents; "
-        "from_numpy of the weighted classes), or the class / factory-method / variance-factory enumeration cases; every latent case with at most 12 candidates is also a "
+        "from_numpy of the weighted classes), or the class / factory-method / variance-factory enumeration cases, or "
+        "(concrete class, data, 2..5 candidates, nobj in {1, 2, 3, nlatent}, (nineqcv, neqcv) cycled over none / equality only / inequality only / both with "
+        "different widths / both with equal widths, transformations of trans.py or harness-defined ones of any width with keyword arguments, weights of both signs, "
+        "zeros and all-zero constraint weights) for the reporting clause: evalfn, _evaluate on a vector / a one-row matrix / the matrix / the matrix reversed, "
+        "problem.evaluate through pymoo with elementwise=True and with a problem constructed with elementwise=False — keys present, shapes, values row by row; every latent case with at most 12 candidates is also a "
         "session on the same problem objects (inputs left intact; new data through every property setter incl. the target flags read afterwards; deep copy equal and "
         "array-disjoint; in-place update of a data array and, for the allele-frequency families, of the target array — targets moved across 0 / 1 — seen by the next "
         "call of the subset and the real problem and by the flag properties) and is repeated on data scaled by 2^-40, 2^-20, 2^12 or 2^20 (exact scale law); "
@@ -185,6 +195,11 @@ def trans_mix(decnvec, latentvec, c=1.0, **kwargs):
     """harness-defined transformation that depends on both arguments (catches swapped/dropped arguments)"""
     return latentvec * c + decnvec.sum()
 
+def trans_lin(decnvec, latentvec, M=None, b=0.0, **kwargs):
+    """harness-defined transformation of ANY width (also 0): row i of M dotted with the latent vector, plus b * sum(decnvec)"""
+    M = numpy.asarray(M, dtype=float).reshape(-1, len(latentvec))
+    return M.dot(latentvec) + b * float(numpy.sum(decnvec))
+
 def _trans_fn(spec):
     from pybrops.breed.prot.sel.prob import trans as T
     k = spec[0]
@@ -195,11 +210,13 @@ def _trans_fn(spec):
     if k == "dot": return T.trans_dot, {"latentvec_wt": numpy.array(spec[1], dtype=float)}
     if k == "decnsum": return T.trans_decnvec_sum_eq, {"decnvec_sum": float(spec[1])}
     if k == "mix": return trans_mix, {"c": float(spec[1])}
+    if k == "lin": return trans_lin, {"M": numpy.array(spec[1], dtype=float), "b": float(spec[2])}
     raise ValueError(spec)
 
 def _trans_len(spec, nlat, default):
     k = spec[0]
     if k == "none": return nlat if default == "id" else 0
+    if k == "lin": return len(spec[1])
     return {"id": nlat, "empty": 0, "sum": 1, "dot": 1, "decnsum": 1, "mix": nlat}[k]
 
 def _eval_kwargs(ev):
@@ -245,12 +262,13 @@ def _ncand(fam, d):
     if fam == "l1": return len(d["V"][0][0])
     return len(d[FAMILIES[fam][2][0]])
 
-def make_problem(fam, enc, d, k, ev, imax=8):
+def make_problem(fam, enc, d, k, ev, imax=8, **extra):
     n = _ncand(fam, d)
     kw = _data_kwargs(fam, d)
     if fam in MATE:
         kw["decn_space_xmap"] = numpy.arange(n, dtype=int)[:, None]
     kw.update(_eval_kwargs(ev))
+    kw.update(extra)
     if enc == "Subset":
         k = max(1, min(k, n))                     # the constructor requires ndecn <= number of candidates; latentfn uses len(x)
         kw.update(ndecn=k, decn_space=numpy.arange(n), decn_space_lower=numpy.repeat(0, k), decn_space_upper=numpy.repeat(n - 1, k))
@@ -643,6 +661,7 @@ def apply_trans(spec, default, x, lat):
     if k == "dot": return [sum(F(w) * v for w, v in zip(spec[1], lat))]
     if k == "decnsum": return [abs(sum(x) - F(spec[1]))]
     if k == "mix": return [v * F(spec[1]) + sum(x) for v in lat]
+    if k == "lin": return [sum(F(m) * v for m, v in zip(row, lat)) + F(spec[2]) * sum(x) for row in spec[1]]
 
 def _evalfn_ok(ev, x, lat, got):
     """got = [obj, ineq, eq] as reported; must be the declared weights times the declared transformation of the reported latent vector"""
@@ -1524,11 +1543,249 @@ def pred_special(case, out):
     if k == "nlatent":
         return [] if out["nlatent"] == out["len"] else ["nlatent = %d but latentfn returns %d values (family %s)" % (out["nlatent"], out["len"], case["case"]["fam"])]
 
+# ------------------------------------------------------------------------------------------------ reporting clause (_evaluate)
+# "the reported objectives and constraint violations are exactly the declared weights times the declared transformations of that
+# latent vector": SelectionProblem._evaluate(x, out) is the path pymoo (Problem.evaluate) and the memetic hill climbers read.
+# A report case drives ONE concrete class with a chosen (nobj, nineqcv, neqcv) and 2..5 candidates through
+#   evalfn(x) / _evaluate(x_1d, out) / _evaluate(x[None, :], out) / _evaluate(X, out) / _evaluate(X reversed, out) /
+#   problem.evaluate(x), problem.evaluate(X) with elementwise=True and with a problem constructed with elementwise=False.
+KEYS = ("F", "G", "H")
+# (nineqcv, neqcv): none; only equality; only inequality; both with DIFFERENT widths; both with equal widths
+CV_PATTERNS = [(0, 0), (0, 1), (0, 2), (0, 3), (1, 0), (2, 0), (3, 0), (1, 2), (2, 1), (1, 3), (3, 1), (2, 3), (3, 2), (1, 1), (2, 2)]
+REPORT_OWNER = ["SelectionProblem._evaluate", "SelectionProblem.evalfn"]
+
+def _gen_trans(rng, nm, count, nlat):
+    """a transformation spec of exactly `count` outputs and its weights (both signs, zeros, sometimes all zero)"""
+    kinds = ["lin", "lin"]
+    if count == 0: kinds += ["empty"] + (["none"] if nm != "obj" else [])
+    if count == 1: kinds += ["sum", "dot", "decnsum"]
+    if count == nlat: kinds += ["id", "mix"] + (["none"] if nm == "obj" else [])
+    k = rng.choice(kinds)
+    spec = [k]
+    if k == "dot": spec.append([_dy(rng, -32, 32) for _ in range(nlat)])
+    if k == "decnsum": spec.append(rng.choice([1.0, 0.5, 2.0, 3.0]))
+    if k == "mix": spec.append(_dy(rng, -32, 32))
+    if k == "lin": spec += [[[_dy(rng, -32, 32) for _ in range(nlat)] for _ in range(count)], rng.choice([0.0, 0.0, 1.0, -0.5, 0.25])]
+    style = rng.random()
+    if style < 0.12 and nm != "obj": wt = [0.0] * count                  # violations all zero: the key must still be reported
+    elif style < 0.3: wt = [rng.choice([0.0, 1.0, -1.0, _dy(rng, -48, 48)]) for _ in range(count)]
+    else: wt = [rng.choice([-1, 1]) * rng.randint(1, 48) / 16 for _ in range(count)]
+    return [spec, wt]
+
+def gen_report(rng, fam, enc, pattern):
+    t = rng.choice([1, 2, 2, 3])
+    n = rng.choice([3, 4, 5, 6])
+    d = gen_data(rng, fam, n, t)
+    k = rng.randint(1, min(4, n))
+    if fam == "gb": d["nbestfndr"] = rng.randint(1, k)
+    nlat = nlatent_of(fam, d)
+    nrow = rng.choice([2, 3, 4, 5])
+    rows = []
+    for _ in range(nrow):
+        if enc == "Subset": r = rng.sample(range(n), k)
+        elif enc == "Integer": r = [rng.choice([0, 0, 1, 1, 2, 3]) for _ in range(n)]
+        elif enc == "Binary": r = [rng.choice([0, 1]) for _ in range(n)]
+        else: r = [rng.choice([0, 0, 1, 2, 3, 4, 8, 16]) / 16 for _ in range(n)]
+        if enc != "Subset" and sum(r) == 0: r[rng.randrange(n)] = 1
+        rows.append(r)
+    nineq, neq = pattern
+    nobj = rng.choice([1, 1, 2, 3, nlat])
+    ev = {"obj": _gen_trans(rng, "obj", nobj, nlat), "ineq": _gen_trans(rng, "ineq", nineq, nlat), "eq": _gen_trans(rng, "eq", neq, nlat)}
+    return {"kind": "report", "fam": fam, "enc": enc, "data": d, "k": k, "rows": rows, "eval": ev}
+
+def _rep_arr(a):
+    a = numpy.asarray(a, dtype=float)
+    return {"shape": list(a.shape), "v": _hx(a)}
+
+def _report(prob, x):
+    """out after prob._evaluate(x, out) on a fresh dictionary: keys in insertion order, shape and values of each"""
+    def f():
+        out = {}
+        with numpy.errstate(all="ignore"): r = prob._evaluate(x, out)
+        rec = {"keys": [str(k_) for k_ in out.keys()], "ret": None if r is None else type(r).__name__}
+        for k_, v in out.items(): rec[str(k_)] = _rep_arr(v)
+        return rec
+    return _try(f)
+
+def _pymoo(prob, x):
+    """Problem.evaluate(x, return_as_dictionary=True): F / G / H as pymoo hands them on (absent, None or an array)"""
+    def f():
+        r = prob.evaluate(x, return_as_dictionary=True)
+        return {key: (None if r.get(key) is None else _rep_arr(r[key])) for key in KEYS}
+    return _try(f)
+
+def run_report(case):
+    fam, enc, d, ev = case["fam"], case["enc"], case["data"], case["eval"]
+    dt = float if enc == "Real" else int
+    X = numpy.array(case["rows"], dtype=dt)
+    imax = max(3, int(X.max())) if enc == "Integer" else 8
+    p = make_problem(fam, enc, d, case["k"], ev, imax=imax)
+    p2 = make_problem(fam, enc, d, case["k"], ev, imax=imax, elementwise=False)
+    out = {"owner": [type(p)._evaluate.__qualname__, type(p).evalfn.__qualname__], "elementwise": [bool(p.elementwise), bool(p2.elementwise)],
+           "counts": [int(p.nobj), int(p.nineqcv), int(p.neqcv)], "nlatent": int(p.nlatent)}
+    out["lat"] = [_lat(p, x) for x in X]
+    out["ev"] = [_ev(p, x) for x in X]
+    out["vec"] = [_report(p, x) for x in X]
+    out["row"] = [_report(p, x[None, :]) for x in X]
+    out["mat"] = _report(p, X)
+    out["mat_rev"] = _report(p, X[::-1])
+    out["mat2"] = _report(p2, X)                       # the same class constructed with elementwise=False
+    out["vec2"] = _report(p2, X[0])
+    out["pm_vec"] = _pymoo(p, X[0]); out["pm_mat"] = _pymoo(p, X)
+    out["pm2_vec"] = _pymoo(p2, X[0]); out["pm2_mat"] = _pymoo(p2, X)
+    out["ev_after"] = _ev(p, X[0])                     # the calls above left the problem as it was
+    out["x_intact"] = bool(numpy.array_equal(X, numpy.array(case["rows"], dtype=dt)))
+    return out
+
+def _report_want(case, out):
+    """per candidate: [objectives, inequality violations, equality violations] = declared weights x declared transformations of the
+    latent vector the implementation reports for that candidate (exact rationals), plus the problems found with that latent vector"""
+    fam, enc, d, ev = case["fam"], case["enc"], case["data"], case["eval"]
+    n = _ncand(fam, d)
+    bad, want = [], []
+    for i, r in enumerate(case["rows"]):
+        lat = _frl(out["lat"][i])
+        if lat is None: bad.append("latentfn of candidate %d gives no finite vector" % i); want.append(None); continue
+        if enc == "Subset": c, mem = [F(v, len(r)) for v in _counts(n, r)], list(r)
+        else:
+            tot = sum(F(v) for v in r); c, mem = [F(v) / tot for v in r], [j for j in range(n) if r[j] > 0]
+        if not _match(lat, defn(fam, d, c, mem)): bad.append("latent vector of candidate %d != definition (family %s, %s encoding)" % (i, fam, enc))
+        x = [F(v) for v in r]
+        want.append([[F(w) * v for w, v in zip(ev[nm][1], apply_trans(ev[nm][0], default, x, lat))] for nm, default in (("obj", "id"), ("ineq", "empty"), ("eq", "empty"))])
+    return bad, want
+
+def _rows_of(rec):
+    """recorded array -> list of rows of Fractions (a vector is one row); None if not finite / not 1-D or 2-D"""
+    sh, v = rec["shape"], _frl(rec["v"])
+    if v is None or len(sh) not in (1, 2): return None
+    if len(sh) == 1: return [v]
+    return [v[i * sh[1]:(i + 1) * sh[1]] for i in range(sh[0])]
+
+def pred_report(case, out):
+    bad = []
+    ev = case["eval"]
+    counts = [len(ev[nm][1]) for nm in ("obj", "ineq", "eq")]
+    R = len(case["rows"])
+    for key, v in out.items():
+        for w in (v if isinstance(v, list) else [v]):
+            if isinstance(w, dict) and "exc" in w: bad.append("%s raised %s: %s" % (key, w["exc"], w["msg"]))
+    if bad: return bad[:8]
+    if out["owner"] != REPORT_OWNER: bad.append("_evaluate / evalfn of the class are %s, not SelectionProblem's: the reporting table does not describe them" % out["owner"])
+    if out["elementwise"] != [True, False]: bad.append("elementwise flags %s (default must be True, the constructor must honour elementwise=False)" % out["elementwise"])
+    if out["counts"] != counts: bad.append("declared nobj / nineqcv / neqcv %s != %s" % (out["counts"], counts))
+    if not out["x_intact"]: bad.append("the decision vectors were modified in place")
+    b2, want = _report_want(case, out)
+    bad += b2
+    if any(w is None for w in want): return bad[:8]
+    names = ("objectives", "inequality constraint violations", "equality constraint violations")
+    for i in range(R):
+        if not _evalfn_ok(ev, [F(v) for v in case["rows"][i]], _frl(out["lat"][i]), out["ev"][i]): bad.append("evalfn(candidate %d) != weights * transformations(latent)" % i)
+    if out["ev_after"] != out["ev"][0]: bad.append("evalfn(candidate 0) changed after the _evaluate / evaluate calls")
+    keys_want = [K for K, c in zip(KEYS, counts) if c > 0]
+    def chk(tag, rec, rows, vec):
+        """rec = recorded out dictionary; rows = indices of the candidates, in the order given; vec: values are vectors"""
+        if rec["keys"] != keys_want: bad.append("%s: keys stored %s, expected %s (a key is reported iff its declared count %s is positive)" % (tag, rec["keys"], keys_want, counts)); return
+        for ix, K in enumerate(KEYS):
+            if K not in rec: continue
+            sh = rec[K]["shape"]
+            shw = [counts[ix]] if vec else [len(rows), counts[ix]]
+            if sh != shw: bad.append("%s: out[%r] has shape %s, expected %s" % (tag, K, sh, shw)); continue
+            got = _rows_of(rec[K])
+            for g, r in zip(got or [None] * len(rows), rows):
+                if g is None or not _closel(g, want[r][ix]):
+                    bad.append("%s: out[%r] row of candidate %d != weights * transformations of the latent vector of that candidate (%s)" % (tag, K, r, names[ix]))
+    for i in range(R):
+        chk("_evaluate(x_1d)", out["vec"][i], [i], True)
+        chk("_evaluate(x[None,:])", out["row"][i], [i], False)
+    chk("_evaluate(X)", out["mat"], list(range(R)), False)
+    chk("_evaluate(X reversed)", out["mat_rev"], list(range(R))[::-1], False)
+    chk("_evaluate(X) [elementwise=False problem]", out["mat2"], list(range(R)), False)
+    chk("_evaluate(x_1d) [elementwise=False problem]", out["vec2"], [0], True)
+    def chk_pm(tag, rec, rows, vec):
+        for ix, K in enumerate(KEYS):
+            r_ = rec.get(K)
+            if counts[ix] == 0:
+                if r_ is not None and len(r_["v"]) > 0: bad.append("%s: %r reported although its declared count is 0" % (tag, K))
+                continue
+            shw = [counts[ix]] if vec else [len(rows), counts[ix]]
+            if r_ is None or r_["shape"] != shw: bad.append("%s: %r has shape %s, expected %s" % (tag, K, None if r_ is None else r_["shape"], shw)); continue
+            got = _rows_of(r_)
+            for g, r in zip(got or [None] * len(rows), rows):
+                if g is None or not _closel(g, want[r][ix]):
+                    bad.append("%s: %r row of candidate %d != weights * transformations of the latent vector of that candidate (%s)" % (tag, K, r, names[ix]))
+    chk_pm("problem.evaluate(x)", out["pm_vec"], [0], True)
+    chk_pm("problem.evaluate(X)", out["pm_mat"], list(range(R)), False)
+    chk_pm("problem.evaluate(x) [elementwise=False]", out["pm2_vec"], [0], True)
+    chk_pm("problem.evaluate(X) [elementwise=False]", out["pm2_mat"], list(range(R)), False)
+    seen = []
+    for b in bad:
+        if b not in seen: seen.append(b)
+    return seen[:8]
+
+def emit_trans2(spec, default):
+    if spec[0] == "lin": return "(TLin %s %s)" % (_ql2(spec[1]), _q(spec[2]))
+    return "(T1 %s)" % emit_trans(spec, default)
+
+def _emit_outd(rec):
+    """a recorded out dictionary -> Coq term of type outd (None: not expressible -> the case is false)"""
+    parts = []
+    for K in rec["keys"]:
+        if K not in KEYS: return None
+        rows = _rows_of(rec[K])
+        if rows is None: return None
+        sh = rec[K]["shape"]
+        parts.append("(key_%s, %s)" % (K, "OV %s" % E.lst(rows[0], E.q) if len(sh) == 1 else "OM %s" % E.lst2(rows, E.q)))
+    return "[" + "; ".join(parts) + "]"
+
+def _emit_pm(rec):
+    """pymoo's dictionary, normalised: a key that is absent / None / of zero size is not there"""
+    keep = {"keys": [K for K in KEYS if rec.get(K) is not None and len(rec[K]["v"]) > 0]}
+    for K in keep["keys"]: keep[K] = rec[K]
+    return _emit_outd(keep)
+
+def emit_report(case, out):
+    fam, enc, d, ev = case["fam"], case["enc"], case["data"], case["eval"]
+    for key, v in out.items():
+        for w in (v if isinstance(v, list) else [v]):
+            if isinstance(w, dict) and "exc" in w: return "false"
+    n, R = _ncand(fam, d), len(case["rows"])
+    lats = [_frl(l) for l in out["lat"]]
+    if any(l is None for l in lats): return "false"
+    head = "let fd := %s in let n := %d%%nat in\n  let tr := evalfn2 %s %s %s %s %s %s in\n  " % (
+        emit_fdata(fam, d), n, emit_trans2(ev["obj"][0], "id"), emit_trans2(ev["ineq"][0], "empty"), emit_trans2(ev["eq"][0], "empty"),
+        _ql(ev["obj"][1]), _ql(ev["ineq"][1]), _ql(ev["eq"][1]))
+    for i, r in enumerate(case["rows"]):
+        head += "let e%d := tr %s %s in\n  " % (i, _ql(r), E.lst(lats[i], E.q))
+    parts = []
+    for i, r in enumerate(case["rows"]):
+        dec = "(DSub %s)" % _natl(r) if enc == "Subset" else "(DVec %s)" % _ql(r)
+        parts.append("agree false %s (latent n fd %s)" % (_oimpl(out["lat"][i]), dec))
+        g = [_frl(v) for v in out["ev"][i]]
+        if any(v is None for v in g): return "false"
+        parts.append("ev_close (%s, %s, %s) e%d" % (E.lst(g[0], E.q), E.lst(g[1], E.q), E.lst(g[2], E.q), i))
+    def cmp(rec, model, pm=False):
+        t = (_emit_pm if pm else _emit_outd)(rec)
+        parts.append("false" if t is None else "outd_close %s (%s)" % (t, model))
+    allrows = "[" + "; ".join("e%d" % i for i in range(R)) + "]"
+    revrows = "[" + "; ".join("e%d" % i for i in reversed(range(R))) + "]"
+    for i in range(R):
+        cmp(out["vec"][i], "report_vec e%d" % i)
+        cmp(out["row"][i], "report_mat [e%d]" % i)
+    cmp(out["mat"], "report_mat " + allrows)
+    cmp(out["mat_rev"], "report_mat " + revrows)
+    cmp(out["mat2"], "report_mat " + allrows)
+    cmp(out["vec2"], "report_vec e0")
+    cmp(out["pm_vec"], "report_vec e0", True); cmp(out["pm2_vec"], "report_vec e0", True)
+    cmp(out["pm_mat"], "report_mat " + allrows, True); cmp(out["pm2_mat"], "report_mat " + allrows, True)
+    parts.append("Nat.eqb %s (nlatent_of fd)" % E.nat(out["nlatent"]))
+    return head + "(" + "\n   && ".join(parts) + ")"
+
 # ------------------------------------------------------------------------------------------------ protocol
 def run_impl(case):
     k = case["kind"]
     if k == "latent": return run_latent(case)
     if k == "factory": return run_factory(case)
+    if k == "report": return run_report(case)
     return run_special(case)
 
 def pred(case, out):
@@ -1537,11 +1794,13 @@ def pred(case, out):
     k = case["kind"]
     if k == "latent": return pred_latent(case, out)
     if k == "factory": return pred_factory(case, out)
+    if k == "report": return pred_report(case, out)
     return pred_special(case, out)
 
 def emit_case(case, out):
     if "exc" in out and "tb" in out: return "false"
     if case["kind"] == "factory": return emit_factory(case, out)
+    if case["kind"] == "report": return emit_report(case, out)
     if case["kind"] != "latent": return None
     return emit_latent(case, out)
 
@@ -1565,6 +1824,8 @@ def nontrivial(case, out):
         return _ncand(case["fam"], case["data"]) >= 3 and len(set(case["s"])) >= 2
     if case["kind"] == "factory":
         return len(case["pop"]["labels"]) >= 3
+    if case["kind"] == "report":
+        return len({tuple(r) for r in case["rows"]}) >= 2
     return True
 
 def describe(case, out):
@@ -1579,6 +1840,13 @@ def describe(case, out):
                 "embv": "-" if case["which"] not in ("embv", "embvmat") else "%s/nrep:%s/nprogeny:%s/%s" % (
                     A.get("prot", "dh"), "array" if isinstance(A["nrep"], list) else "scalar", "array" if isinstance(A["nprogeny"], list) else "scalar",
                     "homozygous" if A.get("homozygous") else "segregating")}
+    if k == "report":
+        ev = case["eval"]
+        return {"kind": k, "family": case["fam"], "encoding": case["enc"], "rows": len(case["rows"]),
+                "nobj/nineqcv/neqcv": "/".join(str(min(len(ev[nm][1]), 2)) + ("+" if len(ev[nm][1]) >= 2 else "") for nm in ("obj", "ineq", "eq")),
+                "cv_widths": "none" if not (ev["ineq"][1] or ev["eq"][1]) else "eq only" if not ev["ineq"][1] else "ineq only" if not ev["eq"][1]
+                             else "both, different" if len(ev["ineq"][1]) != len(ev["eq"][1]) else "both, equal",
+                "obj_trans": ev["obj"][0][0], "ineq_trans": ev["ineq"][0][0], "eq_trans": ev["eq"][0][0]}
     return {"kind": k}
 
 def gen_cases(rng, tier):
@@ -1607,6 +1875,12 @@ def gen_cases(rng, tier):
             continue
         for _ in range(6 if q else 40):
             cases.append(gen_factory(rng, w))
+    # reporting clause: every concrete class (all encodings of every family), the constraint-count patterns cycled over them
+    i = 0
+    for fam in FAMILIES:
+        for enc in (("Subset",) if fam in SUBSET_ONLY else ENCODINGS):
+            for _ in range(2 if q else 10):
+                cases.append(gen_report(rng, fam, enc, CV_PATTERNS[i % len(CV_PATTERNS)])); i += 1
     return cases
 
 def shrink(case, fails):
